@@ -1,4 +1,7 @@
 import CssVerif.Lemmas.Normalize
+import CssVerif.Lemmas.SheetSpecNoC
+import CssVerif.Lemmas.SheetSpecEx
+import CssVerif.Gen.C02Margins
 /-!
 # C02 — the parsed DOM is the same for every way of writing a well-formed sheet
 
@@ -44,5 +47,137 @@ example : Plain [0x63, 0x6F, 0x6C, 0x6F, 0x72] := by
   intro c hc; simp at hc; rcases hc with rfl | rfl | rfl | rfl | rfl <;> decide
 example : normalize (spell [(true, false), (false, true), (true, true)] [0x63, 0x6F, 0x6C, 0x6F, 0x72])
     = [0x63, 0x6F, 0x6C, 0x6F, 0x72] := by decide
+
+/-! ## T2.2 `parse_render` — the structure level
+
+Model: the structure kernel K2 (`Model/Struct.lean`: `_tokensupto2`, `_parse`, declaration block, property
+split, style / media / unknown rule, sheet dispatcher) and the at-rule setters of `Model/AtRules.lean`
+(`@import`, `@namespace`, `@font-face`, `@page` with margin boxes, `@charset`), for EVERY oracle `O` of the
+selector / value / media-query sub-parsers whose at-rule part is those setters (`AtFaithful O`; `withAtRules`
+builds one from any oracle) and every margin table `M`.
+Specification: `Model/SheetSpec.lean` — abstract sheet `A…`, spelled sheet `S…`, `erase`, `render`, DOM
+projection `projSheet`.  `SSheet.WF O M s` (Lemmas/SheetSpec*.lean) says that the opaque parts are what the
+abstract syntax means by them — names are names; a value is a well nested token list without `;` `!` at depth 0
+that, comments aside, neither starts nor ends with white space; a selector group likewise without `,` `;`
+braces; a media query list without braces and strings; prefixes and URIs of `@namespace` are declared once —
+and that `O` accepts the selector, value and media-query token lists as they are written. -/
+open CssVerif.SheetSpec CssVerif.Struct CssVerif.AtRules
+open CssVerif.Proto (Cps cps)
+
+/-- **T2.2 parse_render.**  For every spelled sheet `s` — an abstract sheet together with any choice of
+white-space / comment tokens at every gap of its statements, any letter case and simple escapes of at-keywords,
+property names and the priority ident, any quote style of import targets / namespace URIs / the encoding, any
+placement of stand-alone `;` and the optional `;` after the last declaration — the DOM projection of what the
+parser builds from the tokens of `s` is the abstract sheet: the rules in order, each with its selector groups,
+declarations (name, value, priority), media queries, import target, namespace binding, and nothing else. -/
+theorem parse_render (O : Oracle) (M : List Cps) (hO : AtFaithful O) (s : SSheet) (h : s.WF O M) :
+    projSheet O M (parseSheet O M (render s)) = s.erase := by
+  rw [parseSheet_render O M hO s h, projSheet_parsed O M s h]
+
+/-- corollary: all spellings of one abstract sheet give the same DOM -/
+theorem spelling_invariance (O : Oracle) (M : List Cps) (hO : AtFaithful O) (s₁ s₂ : SSheet)
+    (h₁ : s₁.WF O M) (h₂ : s₂.WF O M) (he : s₁.erase = s₂.erase) :
+    projSheet O M (parseSheet O M (render s₁)) = projSheet O M (parseSheet O M (render s₂)) := by
+  rw [parse_render O M hO s₁ h₁, parse_render O M hO s₂ h₂, he]
+
+/-- the hypothesis on the oracle is satisfiable from any oracle: replace its at-rule part by the setters of
+`Model/AtRules.lean` (this is the oracle of the correspondence) -/
+theorem withAtRules_faithful (O : Oracle) : AtFaithful (withAtRules O) :=
+  ⟨fun _ _ => rfl, fun _ _ => rfl, fun _ => rfl, fun _ => rfl⟩
+
+/-- the declaration block alone (`CSSStyleDeclaration.cssText = tokens`, also the body of `@page` /
+`@font-face`): every spelled block gives back its abstract items -/
+theorem block_recovered (O : Oracle) (b : SBlock) (h : b.WF O) :
+    projItems (parseDecls O b.toks) = b.erase :=
+  parseDecls_block O b h
+
+/-- the selector list alone (`SelectorList._setSelectorText`): the groups are recovered -/
+theorem selector_groups_recovered (s : SSel) (h : s.WF) : (selGroups s.toks).map clean = s.erase :=
+  selGroups_render s h
+
+/-- `@media` (nested to any depth): `CSSMediaRule.cssText = tokens` builds the rule of the spelled one, with
+any amount of fuel above the number of tokens -/
+theorem media_rule_recovered (O : Oracle) (M : List Cps) (hO : AtFaithful O) (ns : List (Cps × Cps)) (kw : Mask) (g1 : Gap)
+    (mq : List Tok) (g2 : Gap) (lead : WGap) (rules : SRules)
+    (h : (SRule.media kw g1 mq g2 lead rules).WF O M ns false) (f : Nat)
+    (hf : (SRule.media kw g1 mq g2 lead rules).toks.length < f) :
+    (mediaRule O ns f (SRule.media kw g1 mq g2 lead rules).toks).map (projRule O M) =
+      some (SRule.media kw g1 mq g2 lead rules).erase := by
+  rw [mediaRule_render O M hO ns kw g1 mq g2 lead rules false h f hf]
+  simp [projRule_parsed O M ns false _ h]
+
+/-- string values: `_stringtokenvalue` / `_uritokenvalue` give back the text for every quote style, every
+case of `url`, white space inside `url( )` -/
+theorem href_recovered (r : SHref) (h : r.WF) :
+    (match r with
+      | .str .. => stringValue r.tok.val
+      | .url .. => uriValue r.tok.val) = r.value :=
+  href_value r h
+
+/-! ## T2.1 locality -/
+
+/-- **T2.1 locality.**  A well-formed stretch of rules is parsed on its own: whatever follows it (`x` is ANY token
+list, also garbage or a truncated construct) and whatever state the dispatcher is in, the rules built from the
+stretch are the rules of the stretch, appended in order, and the dispatcher resumes after exactly its tokens with
+the namespace context unchanged. -/
+theorem statements_local (O : Oracle) (M : List Cps) (hO : AtFaithful O) (rs : SRules) (x : List Tok) (st : SheetSt)
+    (h : rs.WF O M st.nsmap false) :
+    ∃ st', sheetLoop O M st (rs.toks ++ x) = sheetLoop O M st' x ∧
+      st'.rules = st.rules ++ rs.parsed O st.nsmap ∧ st'.nsmap = st.nsmap :=
+  sheetLoop_srules O M hO rs x st h
+
+/-- the same inside `@media` (any nesting depth): the block parser builds the rules of the stretch and goes on
+behind it -/
+theorem media_block_local (O : Oracle) (M : List Cps) (hO : AtFaithful O) (ns : List (Cps × Cps)) (rs : SRules)
+    (h : rs.WF O M ns true) (f : Nat) (acc : List Rule) (x : List Tok) (hf : rs.toks.length < f) :
+    parseLoop (mediaStep O ns (fun l => mediaRule O ns f l)) acc (rs.toks ++ x) =
+      parseLoop (mediaStep O ns (fun l => mediaRule O ns f l)) (acc ++ rs.parsed O ns) x :=
+  mediaLoop_rules O M hO ns rs h f acc x hf
+
+/-! ## T2.3 comments off
+
+`validate_irrelevant` has no counterpart here: the structure kernel has no `validate` parameter at all (the code
+only logs and annotates when validating), so that clause is decided on the implementation by the oracle
+(tools/harness/c02.py, `validate-off`). -/
+
+/-- the tokenizer with `doComments=False` on the text of `s` gives the tokens of the sheet without comments -/
+theorem comments_off_tokens (s : SSheet) : strip (render s) = render s.noC := strip_render s
+
+/-- **T2.3 comments_off.**  Parsing with comment parsing disabled (the COMMENT tokens of `render s` dropped) gives
+the abstract sheet without its comments: comment rules and comment items are gone, everything else is as before.
+The hypothesis is the well-formedness of the comment-free spelling (the sub-parsers accept the selectors / values
+as they are written without their comments). -/
+theorem comments_off (O : Oracle) (M : List Cps) (hO : AtFaithful O) (s : SSheet) (h : s.noC.WF O M) :
+    projSheet O M (parseSheet O M (strip (render s))) = eraseCRules s.erase := by
+  rw [strip_render, parse_render O M hO s.noC h, SSheet.noC_erase]
+
+/-! ## non-vacuity
+
+`@charset "utf-8"; @IMPORT UrL( 'a.css') print ; @namespace p "urn:x"; a , /*c*/ b { COLOR /*c*/ : red ! IMPORTANT ;
+; /*k*/ top : 0 1 }  @x y ; @Media print /*c*/ { a,b{…} /*in*/ } @font-face { … } @page cover/*m*/:first { top : 0 1 ;
+@Top-left /*c*/ { top : 0 1 } }` -/
+
+/-- the hypotheses of `parse_render` are satisfiable: a sheet with every rule kind, gaps with comments, upper case
+and simple escapes, both quote styles -/
+example : Ex2.sheet.WF Ex2.O Ex2.M := Ex2.sheet_wf
+example : AtFaithful Ex2.O := withAtRules_faithful _
+
+/-- hence the theorem applies to it -/
+example : projSheet Ex2.O Ex2.M (parseSheet Ex2.O Ex2.M (render Ex2.sheet)) = Ex2.sheet.erase :=
+  parse_render _ _ (withAtRules_faithful _) _ Ex2.sheet_wf
+
+/-- a test (evaluation of the model on the rendered example), not a theorem: the parse has 8 rules -/
+example : (parseSheet Ex2.O Ex2.M (render Ex2.sheet)).length = 8 := by decide +kernel
+
+/-! ## known findings, shown on the model -/
+
+/-- C02-page-pseudo-case: the pseudo-page ident is kept as written (`csspagerule.py:170-186` compares it with
+`'first'` … without normalising), so `@page :FIRST` and `@page :first` do not give the same DOM -/
+example : pageSelector [colonTok, identTok (cps "FIRST")] ≠ pageSelector [colonTok, identTok (cps "first")] := by
+  decide +kernel
+
+/-- C02-margin-box-space-dropped: the declarations of a margin box are parsed without their white space
+(`marginrule.py:150-172`), so the value that reaches the value parser is not the value that was written -/
+example : Ex2.dTop.eraseSq ≠ Ex2.dTop.erase := by decide
 
 end CssVerif.C02
